@@ -105,3 +105,21 @@ Theorem C04_group_by_is_source_filter_buckets_items : forall strict src wh keys 
    mapM (fun g => mapM (eval_item strict g) items) gs).
 Proof. exact group_by_pipeline. Qed.
 Print Assumptions C04_group_by_is_source_filter_buckets_items.
+
+(* SELECT DISTINCT over a grouped view: the rows of the GROUP BY query, and of these the first one of every key -
+   so selecting only some of the keys does not bring a key back more than once *)
+Require Import Csvq.Proofs.Lateral.
+Theorem C04_distinct_over_group_by : forall strict src wh keys items,
+  eval_query strict (Q (BSelect src wh (Some keys) None items true) [] None None) =
+  (do rows <- eval_query strict (Q (BSelect src wh (Some keys) None items false) [] None None);
+   Ok (dedup_by (row_key strict) rows [])).
+Proof. exact distinct_group_by_pipeline. Qed.
+Print Assumptions C04_distinct_over_group_by.
+
+(* what "the first one of every key" means: no two kept rows have equal keys, every kept row is a row, every row
+   has a kept row with an equal key *)
+Theorem C04_first_row_of_every_key : forall strict (l : list row),
+  ForallOrdPairs (fun a b => keys_eqb (row_key strict a) (row_key strict b) = false) (dedup_by (row_key strict) l []) /\
+  (forall x, In x (dedup_by (row_key strict) l []) -> In x l) /\
+  (forall x, In x l -> exists y, In y (dedup_by (row_key strict) l []) /\ keys_eqb (row_key strict x) (row_key strict y) = true).
+Proof. exact rec_union_has_one_row_per_key. Qed.
